@@ -288,7 +288,7 @@ def main(which):
             chk.known[fid] = chk.known.get(fid, 0) + cnt
     chk.assume("TLC", "probe synapses P (copies the presynaptic voltage) and Q (counts steps) make the dynamics integer exact",
                "replay is a hash sample of the explored histories (thorough: larger sample, deeper edits)")
-    return chk.finish()
+    return chk.finish(extra_wall=float(prev.get("wall_s", 0.0)) if prev else 0.0)
 
 
 if __name__ == "__main__":
